@@ -29,6 +29,7 @@ Definition pinit : pstate := mkP page_size [] [].
 
 Inductive pop :=
 | PInsert (b : list N)
+| PInsertAt (slot : N) (b : list N)   (* InsertTuple by redo/undo: the tuple carries the RID of the log record *)
 | PUpdate (slot : N) (b : list N) (rollback : bool)
 | PMark (slot : N)
 | PApply (slot : N)
@@ -86,6 +87,20 @@ Definition p_insert (s : pstate) (b : list N) : pstate * pout :=
   else if free_remaining s <? add32 size size_tuple then (s, ONoSpace)
   else
     let slot := first_free (slots s) 0 in
+    let fsp' := sub32 (fsp s) size in
+    (mkP fsp' (set_nth (slots s) (N.to_nat slot) (fsp', size)) (b ++ data s), OInserted slot).
+
+(** redo / undo: the logged slot is used when it is available (one past the end, or an empty slot) *)
+Definition slot_available (l : list (N * N)) (slot : N) : bool :=
+  (slot =? N.of_nat (length l)) ||
+  match nth_error l (N.to_nat slot) with Some (_, szf) => szf =? 0 | None => false end.
+
+Definition p_insert_at (s : pstate) (slot0 : N) (b : list N) : pstate * pout :=
+  let size := blen b in
+  if size =? 0 then (s, OPanic)
+  else if free_remaining s <? add32 size size_tuple then (s, ONoSpace)
+  else
+    let slot := if slot_available (slots s) slot0 then slot0 else first_free (slots s) 0 in
     let fsp' := sub32 (fsp s) size in
     (mkP fsp' (set_nth (slots s) (N.to_nat slot) (fsp', size)) (b ++ data s), OInserted slot).
 
@@ -162,6 +177,7 @@ Definition p_get (s : pstate) (slot : N) : pstate * pout :=
 Definition pstep (s : pstate) (o : pop) : pstate * pout :=
   match o with
   | PInsert b => p_insert s b
+  | PInsertAt i b => p_insert_at s i b
   | PUpdate i b r => p_update s i b r
   | PMark i => p_mark s i
   | PApply i => p_apply s i
@@ -191,12 +207,21 @@ Fixpoint a_first_free (a : astate) (i : N) : N :=
 
 Definition a_at (a : astate) (i : N) : option aentry := nth_error a (N.to_nat i).
 
+Definition a_available (a : astate) (i : N) : bool :=
+  (i =? N.of_nat (length a)) ||
+  match nth_error a (N.to_nat i) with Some None => true | _ => false end.
+
 Definition astep (a : astate) (o : pop) : astate * pout :=
   match o with
   | PInsert b =>
       if blen b =? 0 then (a, OPanic)
       else if a_free a <? blen b + size_tuple then (a, ONoSpace)
       else let i := a_first_free a 0 in (set_nth a (N.to_nat i) (Some (b, false)), OInserted i)
+  | PInsertAt i0 b =>
+      if blen b =? 0 then (a, OPanic)
+      else if a_free a <? blen b + size_tuple then (a, ONoSpace)
+      else let i := if a_available a i0 then i0 else a_first_free a 0 in
+           (set_nth a (N.to_nat i) (Some (b, false)), OInserted i)
   | PUpdate i b r =>
       if blen b =? 0 then (a, OPanic)
       else match a_at a i with
@@ -246,6 +271,6 @@ Definition abs (s : pstate) : astate := map (abs_entry s) (slots s).
     of the size field is the delete mark). *)
 Definition op_ok (o : pop) : bool :=
   match o with
-  | PInsert b | PUpdate _ b _ => (blen b <? delete_mask) && forallb (fun x => x <? 256) b
+  | PInsert b | PInsertAt _ b | PUpdate _ b _ => (blen b <? delete_mask) && forallb (fun x => x <? 256) b
   | _ => true
   end.
